@@ -170,6 +170,8 @@ def corruptions(src, rng, n):
 
 
 VALID_EXOTIC = [
+    # subgroup operation reached from a vertex entry: accepted only with SUBGROUP and SUBGROUP_VERTEX_STAGE (checked under SUBGROUP alone, 1 << 16)
+    '@vertex fn v(@builtin(vertex_index) i: u32) -> @builtin(position) vec4<f32> { let s = subgroupAdd(i); return vec4<f32>(f32(s)); }\n',
     # valid shaders whose output must be the same with validation off / on (validation only gates)
     '@group(0) @binding(0) var tex: texture_2d<f32>;\n@group(0) @binding(1) var smp: sampler;\n@group(0) @binding(2) var<storage, read_write> buf: array<u32, 4>;\n'
     '@fragment fn f() { _ = tex; _ = smp; }\n@compute @workgroup_size(1) fn c() { let p = &buf; _ = tex; }\n',
@@ -192,7 +194,7 @@ def native(ctx, src):
         r0 = ctx.S.oracle.gen(s_, base)
         if 'ok' not in r0:
             continue              # not an input the generator accepts at all (under these options)
-        for v in ((True, 3, 0, 1, 1 << 20) if 'derive_encase_host_shareable' in base else (True, 0)):
+        for v in ((True, 3, 0, 1, 1 << 20, 1 << 16, (1 << 16) | (1 << 18)) if 'derive_encase_host_shareable' in base else (True, 0)):
             r1 = ctx.S.oracle.gen(s_, dict(base, validate=v))
             det['checked'] += 1
             # the real validator with exactly the caller's capability set is the reference for accept / reject
